@@ -205,14 +205,20 @@ def gen_schedules(rng, tier, kinds=('bsp', 'blp'), flush=True, shut=True):
                 toks.append(f't{t}')
         # every way of building the processor (two / three constructors, two factory overloads) must configure the same one
         ctor = rng.choice(['', '', 'r', 'f', 'g'] + (['a'] if kind == 'blp' else []))
-        # Shutdown callers with a finite timeout (a quarter / half / one schedule_delay, or zero): the timeout bounds the
-        # caller's patience, never what is exported - the virtual clock moves when a timed wait expires (`o<i>`)
+        # every timeout value (zero, finite, max): a ForceFlush timeout below schedule_delay clips the caller's wait
+        # ('h' half a delay, 'u' one microsecond)
+        if fl and rng.random() < 0.2:
+            k = rng.randrange(len(fl))
+            fl = fl[:k] + rng.choice('hu') + fl[k + 1:]
+        # Shutdown callers with a finite timeout (a quarter / half / one schedule_delay, zero, or one microsecond): the timeout
+        # bounds the caller's patience, never what is exported - the virtual clock moves when a timed wait expires (`o<i>`)
         shtok = str(nshut)
         if nshut and rng.random() < 0.4:
-            shtok = f'{nshut}:' + ''.join(rng.choice('i0124') for _ in range(nshut))
+            shtok = f'{nshut}:' + ''.join(rng.choice('i0124u') for _ in range(nshut))
             toks = [(f'o{rng.choice([0] + list(range(1 + nprod, nth)))}' if rng.random() < 0.08 else t) for t in toks]
         line = f'{kind} {maxq}{ctor} {maxb} {nprod} {adds} {fl or "-"} {shtok} {xs} ; ' + ' ; '.join(toks)
-        out.append(Case(line, 'd_bsp' if kind == 'bsp' else 'd_blp', (kind, 'random', f'fl{len(fl)}sh{nshut}', 'ctor-' + (ctor or 'plain'))))
+        out.append(Case(line, 'd_bsp' if kind == 'bsp' else 'd_blp', (kind, 'random', f'fl{len(fl)}sh{nshut}', 'ctor-' + (ctor or 'plain'))
+                        + (('shutdown-timeout',) if ':' in shtok else ()) + (('flush-timeout-below-delay',) if set(fl) & set('hu') else ())))
     return out
 
 
@@ -407,9 +413,9 @@ def oracle_c03(case, out):
 
 
 H_SSP = Harness('d_ssp', ['harness/d_simple.cc'], flags=SHIM, includes=SDK_INCLUDES, plain_srcs=['harness/shim/detsched.cc'],
-                sdk_srcs=sdk_sources('common') + ['sdk/src/trace/exporter.cc'])
+                sdk_srcs=sdk_sources('common') + ['sdk/src/trace/exporter.cc', 'sdk/src/trace/simple_processor_factory.cc'])
 H_SLP = Harness('d_slp', ['harness/d_simple.cc'], flags=SHIM + ['-DSIMPLE_LOGS'], includes=SDK_INCLUDES, plain_srcs=['harness/shim/detsched.cc'],
-                sdk_srcs=sdk_sources('common') + ['sdk/src/logs/exporter.cc', 'sdk/src/logs/simple_log_record_processor.cc'])
+                sdk_srcs=sdk_sources('common') + ['sdk/src/logs/exporter.cc', 'sdk/src/logs/simple_log_record_processor.cc', 'sdk/src/logs/simple_log_record_processor_factory.cc'])
 
 
 def model_line(case, out):
@@ -418,7 +424,7 @@ def model_line(case, out):
         return abstract(case.line, out)
     if w in ('ssp', 'slp'):
         cfg, rest = case.line.split(' ; ', 1) if ' ; ' in case.line else (case.line, '')
-        scripts = ' '.join('L' * int(n) if int(n) else '-' for n in cfg.split()[1:] if n != 'S')
+        scripts = ' '.join('L' * int(n.rstrip('f')) if int(n.rstrip('f')) else '-' for n in cfg.split()[1:] if n != 'S')     # suffix f: built by the factory
         return f'spin {scripts}' + (f' ; {rest}' if rest else '')
     return case.line
 
@@ -441,6 +447,14 @@ def batch_corpus():
     for kind, ctors in (('bsp', ['', 'r', 'f', 'g']), ('blp', ['', 'r', 'f', 'g', 'a'])):
         for c in ctors:
             out.append(Case(f'{kind} 4{c} 1 1 4 - 0 s ; {burst}', 'd_bsp' if kind == 'bsp' else 'd_blp', ('corpus', 'ctor-' + (c or 'plain')), 'corpus'))
+    # every timeout value: a ForceFlush whose timeout is below schedule_delay (its wait is clipped and expires: 'o2'), and
+    # Shutdown called with a finite / zero / one-microsecond timeout (`<n>:<chars>`)
+    for kind in ('bsp', 'blp'):
+        hn = 'd_bsp' if kind == 'bsp' else 'd_blp'
+        for f in 'hu':
+            out.append(Case(f'{kind} 3 2 1 3 {f} 0 s ; ' + ' ; '.join(['t1'] * 25 + ['t2'] * 8 + ['o2', 't2', 't2', 't2'] + ['t0'] * 30), hn, ('corpus', 'flush-timeout-below-delay'), 'corpus'))
+        for z in ('3u', '0i', 'u4'):
+            out.append(Case(f'{kind} 3 2 1 3 i 2:{z} sS ; ' + ' ; '.join(['t1'] * 25 + ['t3'] * 6 + ['t4'] * 6 + ['t0'] * 30 + ['t3'] * 10 + ['t4'] * 10), hn, ('corpus', 'shutdown-timeout'), 'corpus'))
     return out
 
 
@@ -462,8 +476,15 @@ def gen_simple(rng, tier):
                 sched.append(cur)
         # a third of the cases on a processor that has been shut down: the calls still serialise on the lock
         sd = ' S' if rng.random() < 0.33 else ''
-        out.append(Case(f'{kind} ' + ' '.join(map(str, counts)) + sd + ' ; ' + ' ; '.join(f't{t}' for t in sched),
-                        'd_ssp' if kind == 'ssp' else 'd_slp', (kind, 'random', 'after-shutdown' if sd else 'live')))
+        fac = rng.random() < 0.5        # constructor or the factory's Create: the same processor
+        out.append(Case(f'{kind} ' + ' '.join(map(str, counts)).replace(' ', 'f ' if fac else ' ', 1) + sd + ' ; ' + ' ; '.join(f't{t}' for t in sched),
+                        'd_ssp' if kind == 'ssp' else 'd_slp', (kind, 'random', 'after-shutdown' if sd else 'live', 'ctor-factory' if fac else 'ctor-plain')))
+    # a slow exporter: thread 0 is inside Export while thread 1 goes through the whole fast loop of the spin lock (100
+    # iterations), its yield and its sleep; Export returns when the waiter is at each position around them
+    for kind in ('ssp', 'slp'):
+        for n in (range(94, 114) if big else range(98, 110)):
+            out.append(Case(f'{kind} 2 2 ; t0 ; t0 ; t0 ; ' + ' ; '.join(['t1'] * n) + ' ; t0 ; t0 ; t0 ; ' + ' ; '.join(['t1'] * 6 + ['t0'] * 5 + ['t1'] * 6),
+                            'd_ssp' if kind == 'ssp' else 'd_slp', (kind, 'slow-export-handover-around-yield')))
     return out
 
 
